@@ -6,7 +6,7 @@ from .. import core, values
 ID = 'C14'
 LEVEL = 'fault_enumeration'
 RULE = ('case = (tree of instrumented objects FNode/FNode2 (FNode2: printer without trailing_comment) mixed with lists, '
-        'tuples, dict values, comments and trailing comments, fault plan). Fault enumeration: for every ordered tree shape '
+        'tuples, dict values, comments, trailing comments and second references to already printed nodes (sharing), fault plan). Fault enumeration: for every ordered tree shape '
         'with <= 5 instrumented nodes x 4 edge-wrapper patterns x 3 class patterns, each node in turn (= each printer '
         'invocation in turn: every node is printed exactly once) raises each of 7 exception classes (incl. TypeError and a '
         'custom subclass) before / after printing its children; pairs of faults are sampled (Hypothesis), as are larger '
@@ -23,26 +23,32 @@ EXCS = ['ValueError', 'TypeError', 'KeyError', 'AttributeError', 'RuntimeError',
 WRAPS = ['direct', 'list', 'dictval', 'tcmt', 'cmt', 'tuple']
 
 
-def build(r, nodes):
-    """recipe -> object; `nodes` collects the instrumented nodes in pre-order"""
+def build(r, nodes, done=None):
+    """recipe -> object; `nodes` collects the instrumented nodes in pre-order; ['ref', k] is a second
+    reference to an already completed node (sharing without a cycle)"""
     from .. import faults
     from prettyprinter import comment, trailing_comment
+    if done is None:
+        done = []
     t = r[0]
     if t in ('fn', 'fn2'):
         n = (faults.FNode if t == 'fn' else faults.FNode2)(r[1], [])
         nodes.append(n)
-        n.children = [build(c, nodes) for c in r[2]]
+        n.children = [build(c, nodes, done) for c in r[2]]
+        done.append(n)
         return n
+    if t == 'ref':
+        return done[r[1] % len(done)] if done else r[1]
     if t == 'list':
-        return [build(x, nodes) for x in r[1]]
+        return [build(x, nodes, done) for x in r[1]]
     if t == 'tuple':
-        return tuple(build(x, nodes) for x in r[1])
+        return tuple(build(x, nodes, done) for x in r[1])
     if t == 'dict':
-        return {k: build(v, nodes) for k, v in r[1]}
+        return {k: build(v, nodes, done) for k, v in r[1]}
     if t == 'cmt':
-        return comment(build(r[2], nodes), r[1])
+        return comment(build(r[2], nodes, done), r[1])
     if t == 'tcmt':
-        return trailing_comment(build(r[2], nodes), r[1])
+        return trailing_comment(build(r[2], nodes, done), r[1])
     if t == 'int':
         return r[1]
     if t == 'str':
@@ -140,6 +146,11 @@ def fixed_cases():
     yield {'tree': t, 'faults': [[0, 'ValueError', 'before']]}                       # D11
     yield {'tree': ['list', [['tcmt', 't', ['fn2', 'x', []]], ['int', 1]]], 'faults': [[0, 'KeyError', 'after']]}
     yield {'tree': ['fn', 'top', []], 'badret': [0, 'int']}
+    # the same failing object referenced twice (sharing, no cycle)
+    for exc in ('ValueError', 'TypeError'):
+        for phase in ('before', 'after'):
+            yield {'tree': ['list', [['fn', 'a', [['fn', 'b', []]]], ['ref', 0], ['fn', 'c', [['ref', 0], ['ref', 1]]]]], 'faults': [[1, exc, phase]]}
+            yield {'tree': ['fn', 'r', [['list', [['fn2', 's', []], ['tcmt', 't', ['ref', 0]]]], ['dict', [['k', ['ref', 0]]]]]], 'faults': [[1, exc, phase]]}
     yield {'tree': ['list', [['fn', 'a', [['fn', 'b', []]]], ['int', 1]]], 'badret': [1, 'int']}   # D12
     yield {'tree': ['dict', [['k', ['list', [['fn', 'a', []]]]]]], 'badret': [0, 'none']}
     yield {'tree': ['list', [['tcmt', 'tc', ['list', [['fn2', 'a', []]]]]]], 'badret': [0, 'bytes']}
@@ -147,7 +158,8 @@ def fixed_cases():
 
 def strategy(tier):
     from hypothesis import strategies as st
-    leaf = st.one_of(st.integers(0, 9).map(lambda i: ['int', i]), st.sampled_from(['a b', 'x']).map(lambda s: ['str', s]))
+    leaf = st.one_of(st.integers(0, 9).map(lambda i: ['int', i]), st.sampled_from(['a b', 'x']).map(lambda s: ['str', s]),
+                     st.integers(0, 5).map(lambda i: ['ref', i]))
     tags = st.sampled_from(['a', 'b', 'c', 'long tag with words'])
 
     def ext(ch):
